@@ -3,6 +3,7 @@ import FastgoModel.Proofs.ZlibHeader
 import FastgoModel.Container.Digest
 import FastgoModel.Container.Members
 import FastgoModel.Proofs.WriterWrap
+import FastgoModel.Proofs.StreamFrame
 /-!
 # C06 — gzip and zlib containers round-trip and interoperate
 
@@ -79,6 +80,23 @@ example : parseHeader (emitHeader { extra := some [], name := [0x66], mtime := 5
     .ok { extra := some [], name := [0x66], mtime := 5 } [1, 2] :=
   C06_gzip_header_roundtrip _ (by simp [GzHeader.WF]) 9 [1, 2]
 
+/-- `C06_gzip_member_reads_back` with the abstract inflater replaced by the SPECIFICATION inflater: a gzip member whose
+    DEFLATE body passes the executable check `checkStream` is read back — header fields, payload, source left exactly
+    behind the trailer — whatever follows it. No inflater contract is assumed. -/
+theorem C06_gzip_member_reads_back_spec (mode : Spec.Mode) (h : GzHeader) (hwf : h.WF) (level : Int) (body rest : List UInt8)
+    (hc : Spec.checkStream mode body = true) :
+    ∃ payload, specInflater mode body = some (payload, []) ∧
+      readOneMember (specInflater mode) (gzMember h level body payload ++ rest) = some (h, payload, rest) :=
+  gzip_member_reads_back_spec mode h hwf level body rest hc
+
+/-- the zlib counterpart: header, checked body, Adler-32 trailer, then anything — the Reader model over the specification
+    inflater yields the payload and leaves exactly what follows the trailer -/
+theorem C06_zlib_stream_reads_back_spec (mode : Spec.Mode) (level : Int) (body rest : List UInt8)
+    (hc : Spec.checkStream mode body = true) :
+    ∃ payload, specInflater mode body = some (payload, []) ∧
+      readZlib (specInflater mode) (emitZHeader level none ++ (body ++ (emitZTrailer payload ++ rest))) = some (payload, rest) :=
+  zlib_stream_reads_back_spec mode level body rest hc
+
 end Fastgo.Container
 
 #print axioms Fastgo.Container.C06_gzip_header_roundtrip
@@ -87,5 +105,7 @@ end Fastgo.Container
 #print axioms Fastgo.Container.C06_zlib_header_fcheck
 #print axioms Fastgo.Container.C06_zlib_trailer
 #print axioms Fastgo.Container.C06_gzip_member_reads_back
+#print axioms Fastgo.Container.C06_gzip_member_reads_back_spec
+#print axioms Fastgo.Container.C06_zlib_stream_reads_back_spec
 #print axioms Fastgo.Container.C06_gzip_writer_emits_member
 #print axioms Fastgo.Container.C06_zlib_writer_emits_stream
